@@ -7,6 +7,7 @@ import (
 	"github.com/wormhole-foundation/example-near-light-client/variables"
 	"math/big"
 	"strings"
+	"verifharness/ref"
 
 	"verifharness/data"
 	"verifharness/drv"
@@ -240,6 +241,7 @@ func c04Run(req wrapReq, resp *drv.Response) error {
 		asg := data.Load(inst, req.K)
 		asg.VD = detachVD(asg.VD)
 		sel := "n/a"
+		var aliasOf, aliasTo *big.Int
 		switch c.Kind {
 		case "swap", "rotate":
 			var i, j, sh int
@@ -296,6 +298,18 @@ func c04Run(req wrapReq, resp *drv.Response) error {
 			if !found {
 				return fmt.Errorf("no verifier-data leaf %s", c.Path)
 			}
+		case "alias":
+			// the digest D + p*2^224 (mod r): its 56-bit chunks differ from those of D only by p in the top chunk, which the transcript
+			// reduces away - acceptable only if the chunks of a hash are left to the prover (then the run below supplies them)
+			for _, lf := range data.Walk(&asg.VD) {
+				if strings.HasPrefix(lf.Path, "CircuitDigest") {
+					aliasOf = new(big.Int).Set(lf.Get())
+					d2 := new(big.Int).Add(lf.Get(), new(big.Int).Lsh(bigP, 224))
+					lf.Set(d2.Mod(d2, bigR))
+					aliasTo = lf.Get()
+				}
+			}
+			sel = "n/a"
 		case "other":
 			asg.VD = detachVD(data.Load(data.ByName(c.Other), req.K).VD)
 		case "random":
@@ -325,6 +339,16 @@ func c04Run(req wrapReq, resp *drv.Response) error {
 			asg.VD = variables.DeserializeVerifierOnlyCircuitData(types.ReadVerifierOnlyCircuitDataFromRequest(b))
 		}
 		cfg := &engine.Config{Mode: engine.Native}
+		if aliasOf != nil {
+			cfg.Strategy = func(hcall *engine.HintCall) []*big.Int {
+				if engine.KnownHint(hcall.Name) || len(hcall.Honest) != 5 || len(hcall.Inputs) == 0 || new(big.Int).Mod(hcall.Inputs[len(hcall.Inputs)-1], bigR).Cmp(aliasTo) != 0 {
+					return nil
+				}
+				out := ref.BnToVec(aliasOf)
+				out[4] = new(big.Int).Add(out[4], bigP)
+				return out
+			}
+		}
 		var err error
 		if c.Wrapper == "fixed" {
 			err = hc.RunFixed(cfg, tmpl, asg, hc.PackPublic(pubInputs(asg)))
